@@ -77,8 +77,8 @@ class ScriptedPolicy(pythia.Policy):
     e = current_env()
     if e['raise']:
       raise ValueError('scripted failure')
-    return pythia.EarlyStopDecisions(
-        [pythia.EarlyStopDecision(id=i, reason='scripted', should_stop=e['stop']) for i in request.trial_ids])
+    ids = (list(request.trial_ids) if e.get('self', True) else []) + sorted(e.get('also', []))
+    return pythia.EarlyStopDecisions([pythia.EarlyStopDecision(id=i, reason='scripted', should_stop=e['stop']) for i in ids])
 
 
 class ScriptedFactory:
